@@ -1,9 +1,10 @@
 import MW.Staking.Facts
+import MW.Chain.World
 /-!
 # C10 — Circuit breaker halts all value-moving user operations
 -/
 namespace MW.Props.C10
-open MW MW.Staking
+open MW MW.Staking MW.Chain
 
 /-- a new contract is halted -/
 theorem boot_halted (env : Env) (info : Info) (msg : InstantiateMsg) (s : CState) (out : List SubMsg)
@@ -78,6 +79,43 @@ theorem resume_exact (s s' : CState) (env : Env) (info : Info) (n l r : Nat) (ou
   obtain ⟨_, ha, o, ho, h⟩ := h
   cases h
   exact ⟨assertAdmin_ok.mp ha, rfl, ho⟩
+
+/-- **without effect, on the chain model.**  While the contract is halted, a transaction carrying any
+of the six value-moving messages — from any account, with any funds, under any fault assignment —
+does not commit and leaves the *whole world* as it was: the contract store, every bank balance
+(the funds attached to the message stay with the sender), the LST supply and the packet list. -/
+theorem halted_tx_without_effect (w : World) (sender : String) (funds : List Coin) (m : ExecMsg) (f : Faults)
+    (txi : Option Nat) (hm : valueMoving m = true) (hs : w.c.config.stopped = true) :
+    (step w (.exec sender funds m f txi)).w = w ∧ (step w (.exec sender funds m f txi)).committed = false := by
+  simp only [step, runExec, runExecCore]
+  split
+  · rename_i w' calls heq
+    exfalso
+    split at heq
+    · cases heq
+    · rename_i bal1 _
+      obtain ⟨e, he, _⟩ := halted_blocks ({ w with bal := bal1 } : World).c (({ w with bal := bal1 } : World).env txi)
+        { sender, funds } m hm hs
+      simp only [he] at heq
+      cases heq
+  · exact ⟨rfl, rfl⟩
+
+/-- the same for the two operator deliveries arriving through ibc-hooks: the transfer that carries a
+`ReceiveRewards` / `ReceiveUnstakedTokens` (or any other value-moving message) to a halted contract is
+rejected as a whole — the world, including the hook account's balance, is unchanged -/
+theorem halted_hook_without_effect (w : World) (channel nativeSender : String) (coin : Coin) (m : ExecMsg) (f : Faults)
+    (hm : valueMoving m = true) (hs : w.c.config.stopped = true) :
+    (step w (.hook channel nativeSender coin m f)).w = w
+    ∧ (step w (.hook channel nativeSender coin m f)).committed = false := by
+  simp only [step]
+  split
+  · exact ⟨rfl, rfl⟩
+  · rename_i acct _
+    split
+    · exact ⟨rfl, rfl⟩
+    · have h := halted_tx_without_effect { w with bal := w.bal.add acct coin.denom coin.amount } acct [coin] m f (some 0) hm hs
+      simp only [step] at h
+      simp only [h.2, Bool.false_eq_true, ↓reduceIte, and_self]
 
 /-- non-vacuity: a halted state exists in which a stake with otherwise valid inputs is refused -/
 example : ∃ e, execute { (default : CState) with config := { (default : Config) with stopped := true } }
